@@ -34,7 +34,7 @@ ASSUMPTIONS = [
     "documented errors = the exception classes of pyoak.legacy.error; an operation that raises anything else gives no verdict (counted)",
     "operations expected to be rejected that are accepted give no verdict (counted) and join the history",
 ]
-MUST_SEE = ["same_id_pair_as_children", "transform_result_is_an_attached_root", "detached_receiver_children_reused", "falsy_replacement_with_parent", "visitor_reused_after_rejection", "wrapper_reusing_own_child", "replace_with_own_child", "adopted_children_checked", "runtime_only_child_field_transform", "rule_replaces_children_of_its_copy", "receiver_below_falsy_parent", 
+MUST_SEE = ["transform_of_a_detached_tree_rejected", "replace_key_init_false_in_subclass", "same_id_pair_as_children", "transform_result_is_an_attached_root", "detached_receiver_children_reused", "falsy_replacement_with_parent", "visitor_reused_after_rejection", "wrapper_reusing_own_child", "replace_with_own_child", "adopted_children_checked", "runtime_only_child_field_transform", "rule_replaces_children_of_its_copy", "receiver_below_falsy_parent", 
     "rejected_ASTNodeDuplicateChildrenError", "rejected_ASTNodeParentCollisionError", "rejected_ASTNodeIDCollisionError", "rejected_ASTNodeRegistryCollisionError",
     "rejected_ASTNodeReplaceError", "rejected_ASTNodeReplaceWithError", "rejected_ASTTransformError", "failing_element_not_first", "frames_compared", "nested_failing_element", "two_collided_children",
 ]
@@ -108,8 +108,8 @@ def run_shard(ctx):
             kind = rng.choices(
                 ["dup_seq", "dup_two_fields", "parent_collision", "parent_collision_nested", "id_collision", "attach_collision", "attach_collision_nested",
                  "replace_keys", "replace_dup", "replace_parent_collision", "rw_has_parent", "rw_wrong_class", "rw_none_required", "rw_attach_fails",
-                 "transform_raises", "transform_removes_required", "transformer_raises", "rw_clone_of_attached", "parent_collision_two", "transform_runtime_children", "rw_own_child", "rw_wrapper_reuses_child", "transform_reused_visitor", "rw_falsy_with_parent", "transform_result_refused", "replace_dup_detached_receiver", "replace_same_id_pair"],
-                [3, 3, 1, 1, 3, 3, 1, 3, 1, 1, 3, 3, 3, 1, 3, 3, 3, 2, 2, 2 if f"{P}Seq" in U.cls else 0, 2, 2, 2, 2, 2, 2, 2],
+                 "transform_raises", "transform_removes_required", "transformer_raises", "rw_clone_of_attached", "parent_collision_two", "transform_runtime_children", "rw_own_child", "rw_wrapper_reuses_child", "transform_reused_visitor", "rw_falsy_with_parent", "transform_result_refused", "replace_dup_detached_receiver", "replace_same_id_pair", "transform_on_detached_tree"],
+                [3, 3, 1, 1, 3, 3, 1, 3, 1, 1, 3, 3, 3, 1, 3, 3, 3, 2, 2, 2 if f"{P}Seq" in U.cls else 0, 2, 2, 2, 2, 2, 2, 2, 2],
             )[0]
             where = rng.choice(["first", "middle", "last"])
             if kind == "dup_seq":
@@ -185,6 +185,17 @@ def run_shard(ctx):
             if kind == "replace_keys":
                 n = rng.choice(F.handles)
                 key = rng.choice(["id", "content_id", "original_id", "id_collision_with", "no_such_field", "ensure_unique_id" if False else "id"])
+                if rng.random() < 0.35:
+                    # a field that the receiver's class re-declares as init=False (replaceable in its base class, where
+                    # replace() was used just before)
+                    base = U.cls[f"{P}Lbl"](label="b", kid=leaf(), origin=NO)
+                    F.add(base)
+                    F.add(base.replace(label="c"))
+                    n = U.cls[f"{P}FixedLbl"](kid=leaf(), more=(leaf(), leaf()), origin=NO)
+                    top = U.cls[f"{P}Un"](child=n, origin=NO) if rng.random() < 0.5 else None
+                    F.add(n, top)
+                    key = "label"
+                    ctx.count("replace_key_init_false_in_subclass")
                 return ("replace_keys", "first", n, [], lambda: n.replace(**{key: "x"}))
             if kind == "replace_dup":
                 c = [n for n in F.handles if type(n).__name__ in (f"{P}List", f"{P}Lst", f"{P}Call") and id(n) not in R.stale]
@@ -247,6 +258,30 @@ def run_shard(ctx):
                 F.add(new_home)
                 ctx.count("detached_receiver_children_reused")
                 return ("replace", "last", oldn, [a_, b_, c_, c_], lambda: oldn.replace(items=(a_, b_, c_, c_)))
+            if kind == "transform_on_detached_tree":
+                # transform() asked of a tree that was taken out of the registry before (the visitor walks the caller's own
+                # nodes): the rules rewrite leaves, the one for the last grandchild raises - the caller's tree stays as it was
+                def mk():
+                    R.counter += 1
+                    return U.cls[f"{P}Leaf"](v=R.counter + 95000, origin=NO)
+
+                inner = U.cls[f"{P}Bin"](left=mk(), right=mk(), origin=NO) if f"{P}Bin" in U.cls else U.cls[f"{P}List"](items=(mk(), mk()), origin=NO)
+                first = U.cls[f"{P}List"](items=(mk(), inner), origin=NO)
+                bad = U.cls[f"{P}Leaf2"](v=R.counter + 96000, origin=NO)
+                second = U.cls[f"{P}List"](items=(mk(), bad) if where != "first" else (bad, mk()), origin=NO)
+                top = U.cls[f"{P}List"](items=(first, second), origin=NO)
+                F.add(top)
+                top.detach()
+
+                def up(self_, node):
+                    return node.replace(v=node.v + 1000000)
+
+                def boom(self_, node):
+                    raise RuntimeError("rule raised")
+
+                V = type("RV5", (ASTTransformVisitor,), {f"visit_{P}Leaf": up, f"visit_{P}Leaf2": boom})
+                ctx.count("transform_of_a_detached_tree_rejected")
+                return ("transform", "nested", top, [], lambda: V().transform(top))
             if kind == "replace_same_id_pair":
                 # a node is detached while a reference to it is kept, the same node is created again (same id); later both
                 # objects are handed to replace() of an attached node: two children with one id, refused before anything moves
@@ -615,6 +650,12 @@ def run_shard(ctx):
                 ex = ctx.extra.setdefault("undocumented", [])
                 if len(ex) < 10:
                     ex.append({"op": opname, "error": f"{type(e).__name__}: {e}"[:200], "tb": traceback.format_exc()[-400:]})
+                # the operation instance is one the library is documented to reject; it was refused, with another error than
+                # the documented one - that alone is outside the property's words, nodes changed by the refused call are not
+                signal.setitimer(signal.ITIMER_REAL, 0)
+                diff = F.frame_diff(before)
+                if diff:
+                    ctx.violation(f"{opname}|undocumented:{type(e).__name__}|nodes-changed", f"a refused {opname} (raised {type(e).__name__} instead of its documented error) changed pre-existing nodes", {"operation": opname, "error": f"{type(e).__name__}: {e}"[:200], "receiver": desc(recv), "changes": diff[:6], "history": R.log[-8:]})
                 break
             finally:
                 signal.setitimer(signal.ITIMER_REAL, 0)
